@@ -7,7 +7,7 @@ git -C $WT apply --check "$P" 2>/dev/null || { echo "PATCH DOES NOT APPLY: $P"; 
 git -C $WT apply "$P"
 CH="${@:-C01 C02 C03 C04 C05 C06 C07 C08 C09 C10 C11 C12 C13 C14 C15 C16 C17}"
 cd /verif
-echo $CH | tr ' ' '\n' | xargs -P8 -I{} sh -c 'VERIF_REPO='$WT' VERIF_EVIDENCE_DIR=/tmp/matrix_ev ./check {} >/tmp/benign${BENIGN_TAG}_{}.out 2>&1; echo "{}=$?"' | sort | tr '\n' ' '
+echo $CH | tr ' ' '\n' | xargs -P8 -I{} sh -c 'VERIF_REPO='$WT' VERIF_EVIDENCE_DIR='${BENIGN_EV:-/tmp/matrix_ev}' ./check {} >/tmp/benign${BENIGN_TAG}_{}.out 2>&1; echo "{}=$?"' | sort | tr '\n' ' '
 echo
 for c in $CH; do if ! grep -q "^== " /tmp/benign${BENIGN_TAG}_$c.out || grep -q "^VIOLATION\|ANALYSIS-BROKEN" /tmp/benign${BENIGN_TAG}_$c.out; then echo "--- $c"; grep -v conda /tmp/benign${BENIGN_TAG}_$c.out | grep -B1 -A3 "^\S*: \[\|ANALYSIS-BROKEN" | grep -v "^VIOLATION\|^--" | cut -c1-300 | head -14; fi; done
 git -C $WT checkout -q -- .
